@@ -258,9 +258,23 @@ def run(ctx, rep):
             rep.corr_break('exec-grammar ' + b['kind'], b['program'] + ' / ' + b.get('source', ''),
                            b.get('model_flags', b.get('model_tree', b.get('problem'))),
                            b.get('impl_flags', b.get('real_tree', b.get('real_paths'))))
+    # ---- compound statement contexts: try / with / comprehensions (Model/ExecTry.v: C05_flags_sound_try, C05_visitor_flags_t_absint) ----
+    import execcheck_try
+    tstats, tbad = execcheck_try.run_try(ctx.rng('exect').randrange(10 ** 6), 150 if ctx.quick else 1500)
+    rep.coverage.update(tstats)
+    rep.evaluations += tstats['try_programs']
+    for b in tbad:
+        if b['kind'] == 'try-flags' and b.get('concrete'):
+            c = b['concrete']
+            rep.violation('C05:flag-unsound', c['problem'] + '\n' + c['source'],
+                          {'kind': 'exec-try-grammar', 'prog': b['prog'], 'program': b['program'], 'source': c['source'], 'site': c['site']})
+        else:
+            rep.corr_break('exec-try-grammar ' + b['kind'], b['program'] + ' / ' + b.get('source', ''),
+                           b.get('model_flags', b.get('model_tree', b.get('problem'))),
+                           b.get('impl_flags', b.get('real_tree', b.get('run'))))
     rep.assumptions = [
         'star arguments that are not the pristine *args/**kwargs are values chosen by the program (angelic): a call counts as honoured when some choice of them lets it run',
-        'loops, async def, except-as, import-as, match captures and class bodies are outside the property\'s grammar and are not generated',
+        'for/while loops, async def, except-as, import-as, match captures and class bodies are outside the property\'s grammar and are not generated',
         'callee and decoy bodies do nothing, so every TypeError raised by an execution is an argument-binding error',
         'Model/Exec.v: a dict method call on **kwargs and handing **kwargs to other code MAY mutate it (over-approximation); '
         'the execution comparison is therefore one-directional: wherever the model says untouched, the real callee receives the untouched object',
@@ -269,6 +283,9 @@ def run(ctx, rep):
 
 def replay(ctx, data):
     r = data['replay']
+    if r.get('kind') == 'exec-try-grammar':
+        import execcheck_try
+        return execcheck_try.replay_try(r['prog'])
     if r.get('kind') == 'exec-grammar':
         import ast
         import execcheck
